@@ -11,6 +11,10 @@ ASSUMPTIONS = C03.ASSUMPTIONS + [
     "E1 lemma: EdifParser.parse_design over a symbolic netlist of two libraries (2 + 1 cells; identifiers unique per scope, display "
     "names symbolic and independent of the identifiers): the top instance is an instance of the cell carrying the cellRef identifier "
     "in the library carrying the libraryRef identifier; token glue stubbed; a design naming an undeclared cell is outside (malformed file)",
+    "kernel (E2, CrossHair): the real parse_property / parse_property_like_element (+ parse_nameDef, parse_rename, parse_typedValue, "
+    "append_attribute, the real EdifTokenizer) on up to three string properties of one instance, each absent / plain / renamed, value "
+    "symbolic (|v| <= 2 over 'a1_'): every property read carries its own identifier, an original name iff it was renamed, and its "
+    "value; one job per structure (quick: the four two-property structures mixing renamed and plain, thorough: all 26)",
 ]
 
 
@@ -21,4 +25,10 @@ def jobs(tier):
                         func="multibit_job", timeout=1500, args=dict(width=w, tier=tier)))
     out.append(dict(name="C05/parse_design", engine="E1/symheap", module="vf.e1.edif_jobs",
                     func="design_job", timeout=900, args=dict(tier=tier)))
+    # (property ...) lists: one CrossHair job per structure r0 + 3*r1 + 9*r2 (0 absent, 1 plain, 2 renamed); quick = the four
+    # two-property structures that mix renamed and plain in both orders, thorough = all 26
+    from vf.props.C13 import e2job
+    for k in ((5, 7, 8, 15) if tier == "quick" else range(1, 27)):
+        out.append(e2job("C05", "c05", "h_properties_keep_their_own_names", 600 if tier == "quick" else 1500, tier,
+                         {"VF_K": k}, "[structure=%d]" % k))
     return out
